@@ -6,9 +6,14 @@ extracted model at exact rationals (driver_c05); monomial maps (iteration order 
 space, ==, commutes and the N/Sz shortcuts are diffed exactly. Independently of the model, the property is evaluated on
 the implementation's own output: matrix(A*B) = matrix(A) matrix(B); (A == B) <-> equal matrices; commutes <-> matrices
 commute; shortcut = generic diagonal element.
+Every matrix (A, B, A*B, A+B, A-B, [A,B], {A,B}) is read through BOTH observation points, actRight(ket) and
+getMatrixElement(bra,ket) for all pairs, and compared exactly with the same expression of the model's matrices of A and B.
+In-place expressions whose right-hand side is the object itself (S *= S, S += S, S -= S, S *= S*S, S = S*S, chains, ...) are
+compared with the polynomial in matrix(A) they denote (S -= S in a process of its own: see run()).
 """
 import itertools
 from fractions import Fraction
+from math import gcd
 import pv
 
 
@@ -19,6 +24,25 @@ def frac(tok):
         a, b = tok.split("/")
         return Fraction(int(a), int(b))
     return Fraction(tok)
+
+
+MAT_TAGS = ("MATA", "MATB", "MATMUL", "MATADD", "MATSUB", "MATCOMM", "MATACOMM",
+            "GMEA", "GMEB", "GMEMUL", "GMEADD", "GMESUB", "GMECOMM", "GMEACOMM")
+
+
+def parse_mat(toks):
+    """`ket:bra=c,bra=c ...` -> {(bra, ket): Fraction}, zeros dropped"""
+    m = {}
+    for x in toks:
+        if x.startswith("ERR"):
+            return x
+        k, rest = x.split(":")
+        for e in rest.split(","):
+            b, c = e.split("=")
+            v = frac(c)
+            if v != 0:
+                m[(int(b), int(k))] = v
+    return m
 
 
 def parse_block(lines):
@@ -34,18 +58,16 @@ def parse_block(lines):
                 r[tag] = [(x.split("=")[0], frac(x.split("=")[1])) for x in t[1:]]
         elif tag in ("EQ", "COMMUTES", "EQOLD", "COMMUTESOLD"):
             r[tag] = t[1]
-        elif tag in ("MATA", "MATB", "MATMUL"):
-            m = {}
-            for x in t[1:]:
-                if x.startswith("ERR"):
-                    m = x
-                    break
-                k, rest = x.split(":")
-                for e in rest.split(","):
-                    b, c = e.split("=")
-                    if frac(c) != 0:
-                        m[(int(b), int(k))] = frac(c)
-            r[tag] = m
+        elif tag in MAT_TAGS:
+            r[tag] = parse_mat(t[1:])
+        elif tag == "ALIAS":          # ALIAS <name> MAT <matrix>
+            r.setdefault("ALIAS", {})[t[1]] = parse_mat(t[3:])
+        elif tag == "ALIASGME":       # ALIASGME <name> <matrix>
+            r.setdefault("ALIASGME", {})[t[1]] = parse_mat(t[2:])
+        elif tag == "ALIASFLAGS":
+            r[tag] = (t[1], t[2])
+        elif tag == "SPECDIAG":
+            r.setdefault("SPECDIAG", []).append([(x.split(":")[0],) + tuple(y for y in x.split(":")[1].split("|")) for x in t[2:]])
         elif tag == "SPECIAL":
             r.setdefault("SPECIAL", []).append([(x.split(":")[0],) + tuple(frac(y) for y in x.split(":")[1].split("|")) for x in t[2:]])
         elif tag == "ERR":
@@ -71,6 +93,81 @@ def matmul(a, b):
             if k == k2:
                 r[(i, j)] = r.get((i, j), 0) + x * y
     return {k: v for k, v in r.items() if v != 0}
+
+
+class IMat:
+    """sparse matrix with exact entries: {(i, j): python int} over the common denominator `den` (no overflow, no rounding)"""
+
+    def __init__(self, a, den=1, n=0):
+        self.a, self.den, self.n = a, den, n
+
+    @staticmethod
+    def of(mat, n):
+        den = 1
+        for v in mat.values():
+            den = den * v.denominator // gcd(den, v.denominator)
+        return IMat(dict((k, int(v * den)) for k, v in mat.items()), den, n)
+
+    @staticmethod
+    def ident(n):
+        return IMat(dict(((i, i), 1) for i in range(n)), 1, n)
+
+    def __mul__(self, o):
+        if isinstance(o, IMat):
+            rows = {}
+            for (k, j), y in o.a.items():
+                rows.setdefault(k, []).append((j, y))
+            r = {}
+            for (i, k), x in self.a.items():
+                for j, y in rows.get(k, ()):
+                    r[(i, j)] = r.get((i, j), 0) + x * y
+            return IMat(r, self.den * o.den, self.n)
+        o = Fraction(o)
+        return IMat(dict((k, v * o.numerator) for k, v in self.a.items()), self.den * o.denominator, self.n)
+
+    def _lin(self, o, sign):
+        r = dict((k, v * o.den) for k, v in self.a.items())
+        for k, v in o.a.items():
+            r[k] = r.get(k, 0) + sign * v * self.den
+        return IMat(r, self.den * o.den, self.n)
+
+    def __add__(self, o):
+        return self._lin(o, 1)
+
+    def __sub__(self, o):
+        return self._lin(o, -1)
+
+    def sparse(self):
+        return dict((k, Fraction(v, self.den)) for k, v in self.a.items() if v != 0)
+
+
+def fmt_poly(p):
+    if not isinstance(p, list):
+        return str(p)
+    return " + ".join("%s*%s" % (c, m) for m, c in p) if p else "0"
+
+
+def mat_diff(got, want):
+    """first differing element of two sparse matrices as text, or None"""
+    if got == want:
+        return None
+    for k in sorted(set(got) | set(want)):
+        if got.get(k, 0) != want.get(k, 0):
+            return "<%d|X|%d>: library %s expected %s" % (k[0], k[1], got.get(k, 0), want.get(k, 0))
+    return None
+
+
+def alias_expected(a, c0):
+    """name of the aliased in-place expression (harness/h_c05.cpp alias_battery) -> matrix expression of a = matrix(A)"""
+    one = IMat.ident(a.n)
+    a2 = a * a
+    e = {"S*=S": a2, "S+=S": a * 2, "S*=T": a2, "S=S*S": a2, "S=S+S": a * 2, "S=S-S": a * 0, "S=S": a,
+         "S+=S;S*=S": a2 * 4, "S*=S;S+=S": a2 * 2, "S*=S;S-=T": a2 - a, "comm(S,S)": a * 0, "acomm(S,S)": a2 * 2,
+         "S-=S": a * 0, "S*=S;S-=S": a * 0}
+    lazy = {"S*=S*S": lambda: a2 * a, "S+=S*S": lambda: a + a2, "S-=S*S": lambda: a - a2, "S*=S;S*=S": lambda: a2 * a2}
+    if c0 is not None:
+        e.update({"S*=coef": a * c0, "S+=coef": a + one * c0, "S-=coef": a - one * c0})
+    return e, lazy
 
 
 OPS = lambda M: ["d%d" % i for i in range(M)] + ["c%d" % i for i in range(M)]
@@ -133,6 +230,26 @@ def gen_cases(rng, quick):
         cases.append((M, "md0.d1.c2", "d0", "eq prefix pattern"))
         cases.append((M, "d0 d1 +", "md0.d1.c2 d1 +", "eq prefix pattern"))
         cases.append((M, "d0 c1 *", "md0.c1.d2.c2", "eq prefix pattern"))
+    # (6) several monomials connecting the SAME off-diagonal (bra, ket) pair: a hop / a single operator times a polynomial in the
+    #     densities of spectator modes, normal ordering that leaves density factors behind, commutators with density-density terms
+    #     (every matrix is read through getMatrixElement(bra, ket) AND actRight(ket))
+    for M in (3, 4):
+        for i, j, l in itertools.permutations(range(M), 3):
+            if M == 4 and (i + j + l) % 2:
+                continue
+            hop = "d%d c%d *" % (i, j)
+            cases.append((M, hop + " k1 n%d s2 + *" % l, "n%d" % l, "spectator hop*(1+2n)"))
+            cases.append((M, hop + " " + hop + " n%d * +" % l, hop, "spectator hop+hop*n"))
+            cases.append((M, "mc%d.d%d.d%d" % (j, j, i), "c%d n%d *" % (i, l), "spectator from normal ordering"))
+            cases.append((M, "n%d n%d * n%d s3 +" % (i, j, i), "d%d" % i, "spectator commutator [nn+3n, c+]"))
+        for _ in range(6 if quick else 40):
+            i, j = rng.sample(range(M), 2)
+            rest = [x for x in range(M) if x not in (i, j)]
+            dens = " ".join("k%s n%d s%s +" % (rng.choice(["1", "2", "-1", "1/2"]), x, rng.choice(["1", "2", "-2", "3", "-1/2"])) for x in rest)
+            dens += " *" * (len(rest) - 1)
+            a = "d%d c%d * %s *" % (i, j, dens)
+            b = rng.choice(["c%d d%d * n%d *" % (i, j, rest[0]), "d%d n%d *" % (i, rest[-1]), a + " neg d%d c%d * +" % (i, j)])
+            cases.append((M, a, b, "spectator hop*prod(k+s n)"))
     return cases
 
 
@@ -234,16 +351,119 @@ def run(chk):
             for (k, fast, slow) in sp:
                 if fast != slow:
                     fail("shortcut", case, "ket %s: specialised %s generic %s" % (k, fast, slow), True)
+        # one-argument shortcut getMatrixElement(ket), the specialised actRight(ket) and the off-diagonal elements of N / Sz
+        for sp, sd in zip(pi.get("SPECIAL", []), pi.get("SPECDIAG", [])):
+            for (k, fast, slow), (k2, one, dg, noff) in zip(sp, sd):
+                if frac(one) != slow or frac(dg) != slow or noff != "0":
+                    fail("shortcut-paths", case, "ket %s: getMatrixElement(ket) %s, actRight(ket)[ket] %s, generic polynomial %s, non-zero off-diagonal "
+                         "elements / image states other than the ket: %s" % (k, frac(one), frac(dg), slow, noff), True)
+        if len(pi.get("SPECIAL", [])) != len(pi.get("SPECDIAG", [])):
+            fail("harness SPECDIAG", case, "SPECDIAG lines missing", False)
+        # ---- every matrix through BOTH reading paths, against the matrix expression of the MODEL's matrices of A and B ----
+        if isinstance(pm.get("MATA"), dict) and isinstance(pm.get("MATB"), dict):
+            n = 1 << M
+            ma, mb_ = IMat.of(pm["MATA"], n), IMat.of(pm["MATB"], n)
+            ab, ba = ma * mb_, mb_ * ma
+            want = {"A": pm["MATA"], "B": pm["MATB"], "MUL": ab.sparse(), "ADD": (ma + mb_).sparse(), "SUB": (ma - mb_).sparse(),
+                    "COMM": (ab - ba).sparse(), "ACOMM": (ab + ba).sparse()}
+            label = {"A": "A", "B": "B", "MUL": "A*B", "ADD": "A+B", "SUB": "A-B", "COMM": "[A,B]", "ACOMM": "{A,B}"}
+            base_ok = True
+            for t in ("A", "B", "MUL", "ADD", "SUB", "COMM", "ACOMM"):
+                for path, tag in (("actRight(ket)", "MAT" + t), ("getMatrixElement(bra,ket)", "GME" + t)):
+                    got = pi.get(tag)
+                    if not isinstance(got, dict):
+                        fail("harness " + tag, case, "record %s missing or unreadable: %s" % (tag, str(got)[:80]), False)
+                        continue
+                    d = mat_diff(got, want[t])
+                    if d:
+                        base_ok = False
+                        other = pi.get(("GME" if tag.startswith("MAT") else "MAT") + t)
+                        fail("matrix of %s via %s" % (label[t], path), case,
+                             "X = %s = %s read through %s; %s (expected = same expression of the Jordan-Wigner matrices of A and B; the other reading path gives %s)"
+                             % (label[t], fmt_poly(pi.get(t)), path, d,
+                                other.get(tuple(int(x) for x in d.split(">")[0][1:].replace("X|", "").split("|")), 0) if isinstance(other, dict) else "?"), True)
+            # ---- aliased in-place expressions: S is a copy of A, the right-hand side is S itself ----
+            c0 = pm["A"][0][1] if isinstance(pm.get("A"), list) and pm["A"] else None
+            exp, lazy = alias_expected(ma, c0)
+            al, alg = pi.get("ALIAS", {}), pi.get("ALIASGME", {})
+            for name in sorted(al):
+                e = exp.get(name) or (lazy[name]() if name in lazy else None)
+                if e is None:
+                    fail("harness ALIAS " + name, case, "no expectation for this record", False)
+                    continue
+                w = e.sparse()
+                for path, got in (("actRight(ket)", al[name]), ("getMatrixElement(bra,ket)", alg.get(name))):
+                    d = mat_diff(got, w) if isinstance(got, dict) else "record unreadable"
+                    if d:
+                        ref = al.get("S*=T"), alg.get("S*=T")
+                        refok = ref[0] == exp["S*=T"].sparse() and ref[1] == ref[0] and base_ok
+                        fail("in-place `%s` with the object itself as operand" % name, case,
+                             "S = A = %s; after `%s` (S on both sides is the SAME object) the matrix of S read through %s has %s; "
+                             "the matrices of A, B, A*B, A+B, A-B, [A,B], {A,B} and of `S *= T` with a COPY T of S are %s for this input"
+                             % (fmt_poly(pi.get("A")), name.replace(";", "; "), path, d, "all as expected" if refok else "NOT all as expected either"), True)
+            missing = [nm for nm in ("S*=S", "S+=S", "S*=T", "S=S*S", "S=S+S", "S=S-S", "S=S", "comm(S,S)", "acomm(S,S)") if nm not in al]
+            if missing:
+                fail("harness ALIAS", case, "records missing: %s" % missing, False)
+            if pi.get("ALIASFLAGS") != ("1", "1"):
+                fail("in-place: S==S / S.commutes(S)", case, "S == S returned %s, S.commutes(S) returned %s for S = %s" % (pi.get("ALIASFLAGS", ("?", "?")) + (fmt_poly(pi.get("A")),)), True)
         # model's own ==/commutes (repaired semantics) vs impl
         if pm.get("EQ") != pi.get("EQ"):
             fail("model-vs-impl EQ", case, "impl %s model(sized) %s model(prefix) %s" % (pi.get("EQ"), pm.get("EQ"), pm.get("EQOLD")), False)
         if pm.get("COMMUTES") != pi.get("COMMUTES"):
             fail("model-vs-impl COMMUTES", case, "impl %s model(sized) %s model(prefix) %s" % (pi.get("COMMUTES"), pm.get("COMMUTES"), pm.get("COMMUTESOLD")), False)
 
+    # ---- S -= S (and S *= S; S -= S): a process of its own per attempt, because an implementation that erases the entry it is visiting
+    #      dies here; a handful of cases of every family, smallest first
+    fam = {}
+    for case, bm in zip(cases, mb):
+        if case[3].startswith("raw-monomial len=0") or "throws" in case[3]:
+            continue
+        fam.setdefault(case[3], [])
+        if len(fam[case[3]]) < (3 if quick else 12):
+            fam[case[3]].append((case, bm))
+    todo = sorted((x for l in fam.values() for x in l), key=lambda x: size_of(x[0]))
+    start, sub_crashes = 0, 0
+    while start < len(todo) and sub_crashes < 3:
+        part = "".join("%d ; %s ; %s\n" % (c[0], c[1], c[2]) for c, _ in todo[start:])
+        rc, out, err = pv.run_harness(h, part, timeout=600, args=["alias-sub"])
+        got = blocks(out)
+        for (case, bm), blk in zip(todo[start:], got):
+            pm = parse_block(bm)
+            if "ERR" in pm or any(l.startswith("ERR") for l in blk):
+                continue
+            chk.case("alias-sub;%d;%s" % (case[0], case[1]), "aliased S -= S [" + case[3].split(" len=")[0] + "]", True, None)
+            for l in blk:
+                t = l.split()
+                if t[0] in ("ALIASSUB", "ALIASSUB2", "ALIASSUBGME"):
+                    m = parse_mat(t[2:] if t[0] != "ALIASSUBGME" else t[1:])
+                    if m != {}:
+                        nm = "S*=S; S-=S" if t[0] == "ALIASSUB2" else "S-=S"
+                        fail("in-place `%s` with the object itself as operand" % nm, case, "S = A = %s; after `%s` (the SAME object on both sides) the matrix of S is not zero: %s"
+                             % (fmt_poly(pm.get("A")), nm, mat_diff(m, {})), True)
+            if not any(l.startswith("ALIASSUB2") for l in blk):
+                fail("harness ALIASSUB", case, "records missing", False)
+        start += len(got)
+        if start < len(todo):
+            # the process died inside the block that follows the last complete one
+            sub_crashes += 1
+            case, bm = todo[start]
+            pm = parse_block(bm)
+            if "ERR" not in pm:
+                chk.case("alias-sub;%d;%s" % (case[0], case[1]), "aliased S -= S [crash]", True, None)
+                fail("alias-crash: S -= S", case, "the library crashes (exit %d) on `Operator S = A; S -= S;` with A = %s (Operator::operator-= with the "
+                     "object itself as right-hand side: operator-= erases the entry it is visiting); %s"
+                     % (rc, fmt_poly(pm.get("A")), ("Segmentation fault" if "Segmentation fault" in err else " ".join(err.split())[-120:])), True)
+            start += 1
     viol_kinds = set(k for (k, v) in fails if v)
-    for (kind, violation), (case, detail) in sorted(fails.items()):
+    rank = lambda kv: (2 if kv[0][0].startswith("alias-crash") else 1 if kv[0][0].startswith("in-place") else 0, kv[0])
+    for (kind, violation), (case, detail) in sorted(fails.items(), key=rank):
         M, a, b, sig = case
-        if violation:
+        if violation and (kind.startswith("alias-crash") or kind.startswith("in-place")):
+            # B plays no role in these
+            chk.violation("%s: M=%d A=[%s]" % (kind, M, a), "%s (%s)" % (detail, sig),
+                          {"harness": "h_c05", "input": "%d ; %s ; %s" % (M, a, a), "kind": kind, "detail": detail,
+                           "args": ["alias-sub"] if "S-=S" in kind or "S -= S" in kind else []})
+        elif violation:
             chk.violation("%s: M=%d A=[%s] B=[%s]" % (kind, M, a, b), "%s (%s)" % (detail, sig),
                           {"harness": "h_c05", "input": "%d ; %s ; %s" % (M, a, b), "kind": kind, "detail": detail})
         else:
@@ -254,7 +474,13 @@ def run(chk):
     chk.rule = ("exhaustive: all raw monomials up to length 4 (2 modes) / 3-4 (3 modes) through normalize_and_insert, all pairs of monomials "
                 "up to length 2 (2 modes) / 1-2 (3 modes) through the full battery (A*B, A+B, A-B, commutator, anticommutator, ==, commutes, "
                 "matrices); random: polynomials of 1-4 terms, monomials up to length 6 over up to 5 modes, coefficients from "
-                "{+-1,+-2,+-1/2,3,1/4} with forced cancellations; presets N, Sz (valid and throwing shapes), scalar operations. "
+                "{+-1,+-2,+-1/2,3,1/4} with forced cancellations; presets N, Sz (valid and throwing shapes), scalar operations; "
+                "spectator families (hop or single operator times polynomials in the densities of other modes, commutators with density-density "
+                "terms: several monomials per (bra, ket) pair). For every case the matrices of A, B, A*B, A+B, A-B, [A,B], {A,B} are read through "
+                "actRight(ket) AND through getMatrixElement(bra,ket) for all pairs and compared exactly with the same expression of the model's "
+                "matrices of A and B; N / Sz additionally through getMatrixElement(ket) and their own actRight. Aliased in-place expressions on "
+                "S = copy of A with S itself as right-hand side (S*=S, S+=S, S*=S*S, S=S*S, S=S+S, S=S-S, S=S, chains, scalar taken from S, "
+                "comm/acomm/==/commutes with itself) are compared with the polynomial in matrix(A) they denote; S -= S in a process of its own. "
                 "Every case is non-trivial; distinct = distinct (M, A, B) text. Signature = generator family.")
 
 
@@ -270,7 +496,8 @@ def replay(chk, path):
     if isinstance(rp, dict) and "input" in rp:
         h = pv.build_harness("h_c05")
         drv = pv.build_driver("driver_c05", ["C05_model"])
-        print("implementation:\n" + pv.run_harness(h, rp["input"] + "\n")[1])
+        rc, out, err = pv.run_harness(h, rp["input"] + "\n", args=rp.get("args", []))
+        print("implementation (exit %d):\n%s%s" % (rc, out, "" if rc == 0 else err[-600:]))
         print("model:\n" + pv.sh([drv], input=rp["input"] + "\n")[1])
         return 0
     run(chk)
